@@ -26,29 +26,30 @@ func Glob(pattern, input string, opts ...Option) bool {
 	for _, o := range opts {
 		o(&g)
 	}
+	// Linear-time matching with a single backtrack point: on a mismatch after a
+	// '*', let that '*' absorb one more byte of the input and retry.
 	i := 0
 	j := 0
-	asterisk := false
-	for i < len(pattern) {
-		if pattern[i] == '*' {
-			asterisk = true
+	star := -1
+	mark := 0
+	for j < len(input) {
+		if i < len(pattern) && pattern[i] == '*' {
+			star = i
+			mark = j
 			i++
-		} else {
-			match := pattern[i] == input[j]
-			if !asterisk && !match {
-				return false
-			}
-			if match {
-				i++
-			}
-			if asterisk && match {
-				asterisk = false
-			}
+		} else if i < len(pattern) && pattern[i] == input[j] {
+			i++
 			j++
-		}
-		if j >= len(input) {
-			break
+		} else if star >= 0 {
+			mark++
+			j = mark
+			i = star + 1
+		} else {
+			return false
 		}
 	}
-	return i == len(pattern) && (asterisk || j == len(input))
+	for i < len(pattern) && pattern[i] == '*' {
+		i++
+	}
+	return i == len(pattern)
 }
